@@ -107,6 +107,7 @@ struct TcpInfo {
     state: u8,
     notsent: u32,
     received: u64,
+    /// Bytes handed to the network for the first time.
     sent: u64,
 }
 
@@ -123,7 +124,7 @@ fn tcp_info(socket: &std::net::TcpStream) -> Option<TcpInfo> {
             &mut len,
         )
     };
-    if rc != 0 || (len as usize) < 208 {
+    if rc != 0 || (len as usize) < 216 {
         return None;
     }
     let u32_at = |o: usize| u32::from_ne_bytes(buf[o..o + 4].try_into().expect("4 bytes"));
@@ -132,7 +133,8 @@ fn tcp_info(socket: &std::net::TcpStream) -> Option<TcpInfo> {
         state: buf[0],
         notsent: u32_at(144),
         received: u64_at(128),
-        sent: u64_at(200),
+        // retransmitted bytes (spurious timeouts happen under load) are counted in both
+        sent: u64_at(200).saturating_sub(u64_at(208)),
     })
 }
 
@@ -457,6 +459,19 @@ impl Conn {
                 continue;
             }
             if Instant::now() > deadline {
+                if let Some(path) = std::env::var_os("TCPLOOP_DEBUG") {
+                    use std::io::Write;
+                    let mut file = std::fs::OpenOptions::new().create(true).append(true).open(path).expect("log");
+                    let _ = writeln!(file, "{:?} {:?}", tcp_info(&self.local_socket), self.remote.as_ref().map(|r| tcp_info(&r.socket)));
+                    let _ = writeln!(file, 
+                        "stuck: flying={flying} raw={:?} base={:?} flagged={} done={} jobs={}",
+                        self.in_flight_raw(),
+                        self.base,
+                        self.flagged(local),
+                        done(self),
+                        self.jobs.len()
+                    );
+                }
                 self.stuck = true;
                 break;
             }
